@@ -102,6 +102,9 @@ func loadProg(repo string, specDirs []string) (*Prog, error) {
 		}
 	}
 	registerGhostFields(P)
+	if err := P.resolveHooks(); err != nil {
+		return nil, err
+	}
 	return P, nil
 }
 
@@ -256,4 +259,37 @@ func registerGhostFields(P *Prog) {
 			ghostFieldTypes[k] = P.resolveType(nil, g.Type)
 		}
 	}
+}
+
+func (P *Prog) resolveHooks() error {
+	for _, h := range P.specs.Hooks {
+		var parts []string
+		cur := h.Target
+		for cur.Kind == "sel" {
+			parts = append([]string{cur.Name}, parts...)
+			cur = cur.X
+		}
+		if cur.Kind != "ident" || len(parts) < 2 {
+			return fmt.Errorf("%s:%d: hook target must be pkg.Type.field", h.File, h.Line)
+		}
+		pkg := P.pkgByName[cur.Name]
+		if pkg == nil {
+			return fmt.Errorf("%s:%d: unknown package %s", h.File, h.Line, cur.Name)
+		}
+		tn, ok := pkg.Scope().Lookup(parts[0]).(*types.TypeName)
+		if !ok {
+			return fmt.Errorf("%s:%d: unknown type %s.%s", h.File, h.Line, cur.Name, parts[0])
+		}
+		var path []Step
+		for _, f := range parts[1:] {
+			path = append(path, Step{Field: f})
+		}
+		_, key, _, err := typeAtPath(tn.Type(), path)
+		if err != nil {
+			return fmt.Errorf("%s:%d: %v", h.File, h.Line, err)
+		}
+		h.Key = key
+		h.rootKey = rootKey(tn.Type())
+	}
+	return nil
 }
